@@ -26,8 +26,13 @@ pub mod v0 {
     pub struct Rep {
         pub code: u16,
     }
+    #[derive(Savefile, Clone, Debug, PartialEq)]
+    pub struct Mid {
+        pub value: u32,
+    }
     #[savefile_abi_exportable(version = 0)]
     pub trait Sink {
+        fn mid(&self, m: Mid) -> Rep;
         fn by_ref(&self, r: &Reading) -> u32;
         fn owned(&self, r: Reading) -> Rep;
         fn scalar(&self, x: &u32, y: u16) -> u32;
@@ -48,14 +53,22 @@ pub mod v1 {
         #[savefile_versions = "1.."]
         pub gain: u8,
     }
+    // the field added in version 1 comes FIRST on the wire: data encoded in the wrong version's format shifts `code`
     #[derive(Savefile, Clone, Debug, PartialEq)]
     pub struct Rep {
-        pub code: u16,
         #[savefile_versions = "1.."]
         pub extra: u32,
+        pub code: u16,
+    }
+    #[derive(Savefile, Clone, Debug, PartialEq)]
+    pub struct Mid {
+        #[savefile_versions = "1.."]
+        pub first: u8,
+        pub value: u32,
     }
     #[savefile_abi_exportable(version = 1)]
     pub trait Sink {
+        fn mid(&self, m: Mid) -> Rep;
         fn by_ref(&self, r: &Reading) -> u32;
         fn owned(&self, r: Reading) -> Rep;
         fn scalar(&self, x: &u32, y: u16) -> u32;
@@ -79,6 +92,7 @@ fn mix(millis: u32, channel: u8, gain: u8) -> u32 { millis.wrapping_mul(31) ^ ((
 impl v0::Sink for Impl0 {
     fn by_ref(&self, r: &v0::Reading) -> u32 { SEEN.with(|s| s.set((r.millis, r.channel, 0))); mix(r.millis, r.channel, 0) }
     fn owned(&self, r: v0::Reading) -> v0::Rep { SEEN.with(|s| s.set((r.millis, r.channel, 0))); v0::Rep { code: r.channel as u16 + 1 } }
+    fn mid(&self, m: v0::Mid) -> v0::Rep { SEEN.with(|s| s.set((m.value, 0, 0))); v0::Rep { code: (m.value as u16).wrapping_add(3) } }
     fn scalar(&self, x: &u32, y: u16) -> u32 { x.wrapping_add(y as u32) }
     fn with_cb(&self, cb: &dyn Fn(v0::Reading) -> v0::Rep, seed: v0::Reading) -> v0::Rep {
         let r = cb(v0::Reading { millis: seed.millis.wrapping_add(1), channel: seed.channel });
@@ -92,6 +106,7 @@ impl v0::Sink for Impl0 {
 impl v1::Sink for Impl1 {
     fn by_ref(&self, r: &v1::Reading) -> u32 { SEEN.with(|s| s.set((r.millis, r.channel, r.gain))); mix(r.millis, r.channel, r.gain) }
     fn owned(&self, r: v1::Reading) -> v1::Rep { SEEN.with(|s| s.set((r.millis, r.channel, r.gain))); v1::Rep { code: r.channel as u16 + 1, extra: r.gain as u32 + 100 } }
+    fn mid(&self, m: v1::Mid) -> v1::Rep { SEEN.with(|s| s.set((m.value, m.first, 0))); v1::Rep { code: (m.value as u16).wrapping_add(3), extra: m.first as u32 + 0x0101_0000 } }
     fn scalar(&self, x: &u32, y: u16) -> u32 { x.wrapping_add(y as u32) }
     fn with_cb(&self, cb: &dyn Fn(v1::Reading) -> v1::Rep, seed: v1::Reading) -> v1::Rep {
         let r = cb(v1::Reading { millis: seed.millis.wrapping_add(1), channel: seed.channel, gain: seed.gain.wrapping_add(1) });
@@ -133,7 +148,7 @@ pub fn abi_pairs<S: Src>(s: &mut S) {
     let millis = s.u32();
     let channel = s.u8();
     let gain = s.u8();
-    let method = s.below(7);
+    let method = s.below(8);
     DROPS.with(|d| d.set(0));
     SEEN.with(|x| x.set((9, 9, 9)));
     // what the implementation must observe: retained fields unchanged; `gain` is known to the implementation only at
@@ -191,6 +206,11 @@ pub fn abi_pairs<S: Src>(s: &mut S) {
                 let got = conn.take_boxed(Box::new(move |x| { let _ = &g; x.wrapping_mul(3) }), millis);
                 assert!(got == millis.wrapping_mul(3).wrapping_add(3), "C09: boxed closures passed in stay callable");
                 assert!(DROPS.with(|d| d.get()) == 200, "C09: an owned boxed closure argument is dropped exactly once");
+            }
+            6 => {
+                let rep = conn.mid(v0::Mid { value: millis });
+                assert!(SEEN.with(|x| x.get()) == (millis, 0, 0), "C10: the implementation sees the retained field unchanged and the field the caller lacks defaulted");
+                assert!(rep == v0::Rep { code: (millis as u16).wrapping_add(3) }, "C10: the return value is transmitted in the negotiated (version 0) format");
             }
             _ => {
                 if dv == 0 { assert!(conn.only_old(channel) == channel); }
@@ -255,6 +275,12 @@ pub fn abi_pairs<S: Src>(s: &mut S) {
                 let got = conn.take_boxed(Box::new(move |x| { let _ = &g; x.wrapping_mul(3) }), millis);
                 assert!(got == millis.wrapping_mul(3).wrapping_add(3), "C09: boxed closures passed in stay callable");
                 assert!(DROPS.with(|d| d.get()) == 200, "C09: an owned boxed closure argument is dropped exactly once");
+            }
+            6 => {
+                let rep = conn.mid(v1::Mid { first: gain, value: millis });
+                assert!(SEEN.with(|x| x.get()) == (millis, seen_gain, 0), "C10: arguments are transmitted in the negotiated version's format (retained fields unchanged)");
+                let extra = if dv >= 1 { seen_gain as u32 + 0x0101_0000 } else { 0 };
+                assert!(rep == v1::Rep { code: (millis as u16).wrapping_add(3), extra }, "C10: the return value is transmitted in the negotiated version's format");
             }
             _ => {
                 if dv == 1 { assert!(conn.only_new(channel) == channel); }
